@@ -12,10 +12,11 @@ cp "$SEED"/demo/*_test.go "$WT/$PKG/" 2>/dev/null
 # NTP_OVERLAY=1: packages importing consensus/ticker block in init() on an NTP query offline; build the demo with an
 # overlay whose only change is utility.ntpInitFlag = true (nothing in the worktree is modified)
 OV=""
+[ "${RACE:-0}" = "1" ] && OV="-race"
 if [ "${NTP_OVERLAY:-0}" = "1" ]; then
   sed 's/ntpInitFlag = false/ntpInitFlag = true/' "$WT/src/utility/time.go" > "$WT.time.go"
   printf '{"Replace":{"%s/src/utility/time.go":"%s.time.go"}}' "$WT" "$WT" > "$WT.overlay.json"
-  OV="-overlay $WT.overlay.json"
+  OV="$OV -overlay $WT.overlay.json"
 fi
 cd "$WT"
 echo "--- demo WITHOUT patch (expect ok)"
